@@ -90,6 +90,13 @@ InvC13model ==
     IsRun =>
         LET e == Last  m == ModelOutcome(pre, e) IN
         (SupportedRun(m, e) /\ Diff(m, e.out) = "") => Report("C13", m.c13 = <<>>)
+\* C17 beyond the sequential fragment (streams, canons, maps): the tetraplets handed to the host with every request are
+\* the ones the model computes (element by element for canon arguments)
+InvC17model ==
+    IsRun =>
+        LET e == Last  m == ModelOutcome(pre, e) IN
+        (SupportedRun(m, e) /\ ReqKeys(m.reqs) = ReqKeys(e.out.reqs)) =>
+            Report("C17", [i \in 1..Len(m.reqs) |-> m.reqs[i].tets] = [i \in 1..Len(e.out.reqs) |-> e.out.reqs[i].tets])
 \* C12: relative generation order of the stream values, against the previous data of the peer (model-free) and
 \* against the model (same relative order of every pair of stream values, whatever the numbers)
 StreamVals(tr) == {i \in 1..Len(tr) : tr[i].k = "exec" /\ tr[i].vt = "stream"}
@@ -104,6 +111,11 @@ InvC12 ==
         /\ ((SupportedRun(m, e) /\ StripTrace([i \in 1..Len(m.data.trace) |-> IF m.data.trace[i].k = "exec" THEN [m.data.trace[i] EXCEPT !.g = 0] ELSE m.data.trace[i]])
                                = StripTrace([i \in 1..Len(e.out.data.trace) |-> IF e.out.data.trace[i].k = "exec" THEN [e.out.data.trace[i] EXCEPT !.g = 0] ELSE e.out.data.trace[i]]))
               => Report("C12", SameOrder(m.data.trace, e.out.data.trace)))
+        \* the generations written into append states (ap) follow the same rule - values produced in the run after the
+        \* ones from the data -; they carry no content to pair them by, so they are compared with the model's numbers
+        /\ ((SupportedRun(m, e) /\ Len(m.data.trace) = Len(e.out.data.trace)) =>
+              Report("C12", \A i \in 1..Len(m.data.trace) :
+                                (m.data.trace[i].k = "ap" /\ e.out.data.trace[i].k = "ap") => m.data.trace[i].gs = e.out.data.trace[i].gs))
 
 \* C18: which failures an xor catches, and what the handler sees in %last_error% / :error:, against the model's
 \* error descriptors.  Judged on the run's code when both sides end in success or in a catchable error (or when the
